@@ -399,21 +399,12 @@ def main(argv=None) -> int:
         "n": 0, "ops": 0, "probes": Counter(), "faults": Counter(), "sigs": set(), "states": set(),
         "nontrivial_sigs": set(), "violations": [], "errors": [], "samples": [], "outcomes": Counter(),
     }
-    wall_cap = cfg.get("wall_cap", 3600)
+    wall_cap = float(os.environ.get("VERIF_WALL_CAP", cfg.get("wall_cap", 3600)))
     truncated = False
     ctx = multiprocessing.get_context("fork")
     with ProcessPoolExecutor(max_workers=a.workers, mp_context=ctx) as ex:
         futs = [ex.submit(run_batch, t) for t in tasks]
-        for fu in futs:
-            try:
-                remaining = max(1.0, wall_cap - (time.time() - t0))
-                o = fu.result(timeout=remaining)
-            except Exception as e:
-                agg["errors"].append({"error": f"worker failed or wall cap hit: {type(e).__name__}: {e}"})
-                truncated = True
-                for g in futs:
-                    g.cancel()
-                break
+        def absorb(o):
             agg["n"] += o["n"]
             agg["ops"] += o["ops"]
             for k in ("probes", "faults", "outcomes"):
@@ -424,6 +415,33 @@ def main(argv=None) -> int:
             agg["errors"].extend(o["errors"])
             if len(agg["samples"]) < 3:
                 agg["samples"].extend(o["samples"])
+
+        seen = set()
+        for fu in futs:
+            try:
+                remaining = max(1.0, wall_cap - (time.time() - t0))
+                o = fu.result(timeout=remaining)
+            except TimeoutError:
+                # the wall cap only ever truncates (and says so in the evidence): the runs completed so
+                # far are the result, the rest of this tier's runs are not explored this time
+                truncated = True
+                for g in futs:
+                    g.cancel()
+                break
+            except Exception as e:
+                agg["errors"].append({"error": f"worker failed: {type(e).__name__}: {e}"})
+                truncated = True
+                for g in futs:
+                    g.cancel()
+                break
+            seen.add(id(fu))
+            absorb(o)
+    if truncated:
+        # (leaving the `with` block waited for the batches that were already running: keep their results)
+        for fu in futs:
+            if id(fu) not in seen and fu.done() and not fu.cancelled() and fu.exception() is None:
+                absorb(fu.result())
+        print(f"[{prop}] wall cap of {wall_cap}s reached after {agg['n']} of {n_runs} runs: truncated", flush=True)
     wall_search = time.time() - t0
 
     # determinism self-test (same seeds twice here, once more in a fresh interpreter under
